@@ -55,6 +55,18 @@ def build(profile):
         env["RUSTFLAGS"] = "-Zsanitizer=address -Cforce-frame-pointers=yes -Cdebug-assertions=on"
         cmd += ["--target", "x86_64-unknown-linux-gnu"]
         sub = "x86_64-unknown-linux-gnu/debug"
+    elif profile == "tsan":
+        sysroot, err = tsan_sysroot()
+        if sysroot is None:
+            return None, err
+        env["RUSTC"] = nightly_rustc()
+        env.pop("RUSTFLAGS", None)
+        env["CARGO_ENCODED_RUSTFLAGS"] = "\x1f".join(
+            ["-Zsanitizer=thread", "--sysroot", sysroot, "-Cdebug-assertions=on"])
+        cmd += ["--target", "x86_64-unknown-linux-gnu"]
+        sub = "x86_64-unknown-linux-gnu/debug"
+    elif profile == "miri":
+        return build_miri()
     else:
         return None, "unknown profile " + profile
     t0 = time.time()
@@ -68,9 +80,78 @@ def build(profile):
     return binary, ""
 
 
+TRIPLE = "x86_64-unknown-linux-gnu"
+
+
+def tsan_sysroot():
+    """ThreadSanitizer needs an instrumented std: build one from a
+    dependency-free dummy crate with nightly cargo -Zbuild-std and lay it out
+    as a sysroot."""
+    root = os.path.join(BUILD, "tsan-sysroot")
+    libdir = os.path.join(root, "lib", "rustlib", TRIPLE, "lib")
+    stamp = os.path.join(root, "ok")
+    if os.path.exists(stamp):
+        return root, ""
+    env = dict(BASE_ENV)
+    env["CARGO_TARGET_DIR"] = os.path.join(BUILD, "tsan-std")
+    env["RUSTFLAGS"] = "-Zsanitizer=thread"
+    p = subprocess.run(["cargo", "+nightly", "build", "-Zbuild-std", "--target", TRIPLE, "--offline", "--quiet"],
+                       cwd=os.path.join(VERIF, "tsan-dummy"), env=env, capture_output=True, text=True)
+    if p.returncode != 0:
+        return None, "tsan std build failed: " + (p.stdout + p.stderr)[-3000:]
+    os.makedirs(libdir, exist_ok=True)
+    deps = os.path.join(BUILD, "tsan-std", TRIPLE, "debug", "deps")
+    for f in os.listdir(deps):
+        if f.endswith(".rlib") or f.endswith(".rmeta"):
+            shutil.copy(os.path.join(deps, f), libdir)
+    nsys = subprocess.run(["rustc", "+nightly", "--print", "sysroot"], capture_output=True, text=True,
+                          env=BASE_ENV).stdout.strip()
+    rt = os.path.join(nsys, "lib", "rustlib", TRIPLE, "lib", "librustc-nightly_rt.tsan.a")
+    if not os.path.exists(rt):
+        return None, "tsan runtime not found: " + rt
+    shutil.copy(rt, libdir)
+    open(stamp, "w").write("ok")
+    return root, ""
+
+
+MIRI_CONFIG = ["--config", 'source.crates-io.replace-with="vendored-sources"',
+               "--config", f'source.vendored-sources.directory="{os.path.join(BUILD, "vendor")}"']
+
+
+def miri_env():
+    env = dict(BASE_ENV)
+    env["CARGO_TARGET_DIR"] = os.path.join(BUILD, "miri")
+    env["MIRIFLAGS"] = "-Zmiri-disable-isolation"
+    return env
+
+
+def miri_prefix():
+    return ["cargo", "+nightly", "miri", "run", "--offline", "--quiet"] + MIRI_CONFIG + ["--"]
+
+
+def build_miri():
+    """Miri needs nightly cargo, which cannot see the repository's registry:
+    vendor the locked crates with the repository's cargo and point nightly
+    cargo at the vendor directory. Returns a command prefix."""
+    vendor = os.path.join(BUILD, "vendor")
+    if not os.path.exists(os.path.join(vendor, ".ok")):
+        p = subprocess.run(["cargo", "+" + REPO_TOOLCHAIN, "vendor", "--offline", "--respect-source-config",
+                            "--versioned-dirs", vendor], cwd=HARNESS, env=BASE_ENV, capture_output=True, text=True)
+        if p.returncode != 0:
+            return None, "cargo vendor failed: " + (p.stdout + p.stderr)[-3000:]
+        open(os.path.join(vendor, ".ok"), "w").write("ok")
+    t0 = time.time()
+    # warm the build (also rebuilds after an edit in /repo)
+    p = subprocess.run(miri_prefix() + ["list"], cwd=HARNESS, env=miri_env(), capture_output=True, text=True)
+    if p.returncode != 0:
+        return None, "miri build failed: " + (p.stdout + p.stderr)[-4000:]
+    log(f"[build] profile=miri ok in {time.time() - t0:.1f}s")
+    return miri_prefix(), ""
+
+
 def setup():
     ok = True
-    for profile in ("dbg", "rel"):
+    for profile in ("dbg", "rel", "asan", "tsan", "miri"):
         b, err = build(profile)
         if b is None:
             log(f"[setup] build {profile} failed:\n{err}")
@@ -120,6 +201,21 @@ def stage(profile, worker_prop, scale=1.0, **kw):
 PLANS = {
 }
 PLANS["C17"] = [stage("dbg", "C17"), stage("rel", "C17")]
+ASAN_ENV = {"ASAN_OPTIONS": "detect_leaks=0:abort_on_error=1:halt_on_error=1:allocator_may_return_null=0:max_allocation_size_mb=4096",
+            "RSV_UNSAFE_MODE": "2"}
+TSAN_ENV = {"TSAN_OPTIONS": "halt_on_error=1:exitcode=66:second_deadlock_stack=1"}
+PLANS["C18"] = [
+    stage("dbg", "C18"),
+    stage("tsan", "C18S", env=TSAN_ENV),
+    stage("asan", "C18", env=ASAN_ENV, cases={"quick": 800, "thorough": 16000}),
+    stage("asan", "C18S", env=ASAN_ENV, cases={"quick": 800, "thorough": 12000}),
+    stage("miri", "C18M", cases={"quick": 160, "thorough": 3200}),
+]
+PLANS["C19"] = [
+    stage("dbg", "C19", require_all_unsafe_sites=True),
+    stage("asan", "C19", env=ASAN_ENV, cases={"quick": 20000, "thorough": 300000}),
+    stage("miri", "C19M"),
+]
 for _p in ("C01", "C02", "C03", "C04", "C05", "C06", "C07", "C08", "C09", "C10", "C11", "C12", "C13", "C14", "C15", "C16", "C20"):
     PLANS[_p] = [stage("dbg", _p)]
 
@@ -138,7 +234,7 @@ def run_worker_stage(binary, st, prop, tier, seed, outdir):
     def limits():
         # address-space cap: an allocation blow-up becomes an abort of this
         # worker instead of exhausting the machine
-        if st["profile"] not in ("asan", "tsan"):
+        if st["profile"] not in ("asan", "tsan", "miri"):
             import resource
             cap = int(st.get("mem_gb", 8)) * (1 << 30)
             resource.setrlimit(resource.RLIMIT_AS, (cap, cap))
@@ -147,13 +243,15 @@ def run_worker_stage(binary, st, prop, tier, seed, outdir):
         out = os.path.join(outdir, f"{prop}-{st['profile']}-{st['prop']}-{i}.json")
         prog = out + ".progress"
         skip = []
-        base = [binary, "worker", "--prop", st["prop"], "--tier", tier,
+        prefix = binary if isinstance(binary, list) else [binary]
+        base = prefix + ["worker", "--prop", st["prop"], "--tier", tier,
                 "--seed", str(seed), "--shard", str(i), "--nshards", str(nshards),
                 "--replay-dir", REPLAYS, "--known", KNOWN_FILE]
         if "cases" in st:
             base += ["--cases", str(st["cases"][tier])]
-        env = dict(BASE_ENV)
+        env = miri_env() if st["profile"] == "miri" else dict(BASE_ENV)
         env.update(st.get("env", {}))
+        cwd = HARNESS if st["profile"] == "miri" else None
         for attempt in range(6):
             for f in (out, prog):
                 if os.path.exists(f):
@@ -162,7 +260,7 @@ def run_worker_stage(binary, st, prop, tier, seed, outdir):
             if skip:
                 cmd += ["--skip", ",".join(map(str, skip))]
             try:
-                p = subprocess.run(cmd, capture_output=True, text=True, env=env,
+                p = subprocess.run(cmd, capture_output=True, text=True, env=env, cwd=cwd,
                                    timeout=budget * 4 + 600, preexec_fn=limits)
             except subprocess.TimeoutExpired:
                 # which case was running?
@@ -181,21 +279,22 @@ def run_worker_stage(binary, st, prop, tier, seed, outdir):
             os.makedirs(REPLAYS, exist_ok=True)
             rp = os.path.join(REPLAYS, f"{prop}-crash-{st['profile']}-s{seed}-{i}-{idx}.json")
             subprocess.run(base + ["--only", str(idx), "--dump", rp], capture_output=True,
-                           text=True, env=env, timeout=600)
+                           text=True, env=env, cwd=cwd, timeout=1200)
             if not os.path.exists(rp):
                 return None, f"shard {i}: worker died at case {idx} and the case could not be dumped"
             try:
-                c = subprocess.run([binary, "replay", rp], capture_output=True, text=True, env=env,
-                                   timeout=900, preexec_fn=limits)
+                c = subprocess.run(prefix + ["replay", rp], capture_output=True, text=True, env=env, cwd=cwd,
+                                   timeout=1800, preexec_fn=limits)
                 died = c.returncode not in (0, 1, 2)
                 tail = (c.stderr or "")[-600:]
             except subprocess.TimeoutExpired:
-                died, tail = True, "no result within 900 s when run alone (hang)"
+                died, tail = True, "no result within 1800 s when run alone (hang)"
             if died:
                 doc = json.load(open(rp))
                 doc["profile"] = st["profile"]
+                report = sanitizer_summary((p.stderr or "") + "\n" + tail)
                 doc["detail"] = (f"worker process died (exit {p.returncode}) on this case and dies again "
-                                 f"when the case is run alone (exit {c.returncode if 'c' in dir() else '?'}): {tail}")
+                                 f"when the case is run alone: {report}")
                 json.dump(doc, open(rp, "w"), indent=1)
                 crash_violations.append({"clause": "crash", "detail": doc["detail"], "replay": rp,
                                          "case_index": idx})
@@ -214,6 +313,18 @@ def run_worker_stage(binary, st, prop, tier, seed, outdir):
                      "violations": crash_violations, "known_hits": {}, "samples": [], "inconclusive": [],
                      "early_stop": False})
     return sums, errs
+
+
+def sanitizer_summary(text):
+    """First sanitizer / Miri / hook report in a stderr text, shortened."""
+    keys = ("ERROR: AddressSanitizer", "WARNING: ThreadSanitizer", "Undefined Behavior", "VERIF-UNSAFE",
+            "C18-DEADLOCK", "C18-SCHEDULER-TIMEOUT", "error: unsupported operation", "the evaluated program deadlocked",
+            "memory allocation of", "panicked at")
+    lines = text.splitlines()
+    for i, l in enumerate(lines):
+        if any(k in l for k in keys):
+            return " | ".join(x.strip() for x in lines[i:i + 12])[:1500]
+    return text[-600:]
 
 
 def merge(summaries):
@@ -375,6 +486,11 @@ def run_property(prop, tier, seed):
             "cache_writes": m["cache_writes"],
             "cache_replacements": m["cache_replacements"],
         })
+        if st.get("require_all_unsafe_sites"):
+            hits = m["unsafe_site_hits"] or []
+            missing = [i for i, h in enumerate(hits) if h == 0]
+            if not hits or missing:
+                infra_errors.append(f"unsafe sites never reached by the workload: {missing or 'all'} (inconclusive)")
         # accumulate
         total["cases"] += m["cases"]
         total["nontrivial"].update(f"{st['profile']}:{x}" if len(plan) > 1 and False else x
